@@ -48,8 +48,11 @@ def tmrt : Handler
              spec := if want.map toString == some back then none
                      else some (if (f.splitOn "%s").length > 1 && back == "(error)" then "strptime-no-percent-s" else "-",
                                 s!"strpntime(strfntime(t, f), f) = t to the precision of f = {want}") }
-    | "strfl", [t, _, _], [_, back, _] =>
-      some { model := impl, unmodelled := true, spec := if back == t then none else some ("-", s!"strptime_local(strftime_local(t, f, tz), f, tz) = t = {t}") }
+    | "strfl", [t, _, _], [txt, back, _, again] =>
+      -- in a DST overlap a zone-less local text names two instants: the parse may return either (same text again)
+      some { model := impl, unmodelled := true,
+             spec := if back == t || (again == txt && back != "(error)") then none
+                     else some ("-", s!"strptime_local(strftime_local(t, f, tz), f, tz) = t = {t} (or the other instant with the same local text)") }
     | "fdhms", [_], [_, ok1, _, ok2] =>
       some { model := impl, unmodelled := true, spec := if ok1 == "ok" && ok2 == "ok" then none else some ("-", "dhms2fsec(fsec2dhms(x)) = x and hms2fsec(fsec2hms(x)) = x to 1e-6") }
     | "decimals", [_, _], [_] => some { model := impl, unmodelled := true }
